@@ -32,6 +32,7 @@ def run(ctx):
     parts += g.gen_statements(ctx, "selectq")[: (1 if ctx.quick else 2)]
     parts.append(("deep", g.gen_deep(ctx, 4000 if ctx.quick else 40000, 4 if ctx.quick else 5)))
     parts.append(("names", g.gen_names(ctx)))
+    parts.append(("dict", g.gen_dict(ctx)))
     # (c) every single-token mutation (delete / duplicate / swap / truncate / replace) of the 30 base statements of
     # spec/c04/Gen_c04w.tla: whatever the parser still accepts must be total under every operation
     from checks import c04 as _c04
